@@ -56,6 +56,15 @@ def lbEngine (ss : List (String × St)) (args : List String) : List (String × S
         (lbSet ss sid s', s!"ok | {lbDigest s'}")
       else (ss, "bad-op")
     | _, _, _ => (ss, "bad-op")
+  | ["close", sid, t, now] =>
+    match lbLookup ss sid, pNat t, pInt now with
+    | some s, some t, some now =>
+      if t < lbNT && lbFitsI64 now then
+        match close s t now with
+        | some s' => (lbSet ss sid s', s!"ok | {lbDigest s'}")
+        | none => (ss, s!"err | {lbDigest s}")
+      else (ss, "bad-op")
+    | _, _, _ => (ss, "bad-op")
   | ["trade", sid, t, now, kind, ver, extra, succ, ev, evu, before, after] =>
     match lbLookup ss sid, allNat [t, kind, ver, extra, evu, before, after], pInt now, pBool succ, pBool ev with
     | some s, some [t, kind, ver, extra, evu, before, after], some now, some succ, some ev =>
